@@ -952,11 +952,12 @@ mod builtins {
             } else {
                 // Fast path for a more common case of single key
                 let key = if !keys.is_empty() { keys[0] } else { attr };
+                // a failing lookup counts as an undefined key (like in the multi-key
+                // case); treating it as equal to everything is not a total order.
                 safe_sort(&mut items, |a, b| {
-                    match (a.get_path(key), b.get_path(key)) {
-                        (Ok(a), Ok(b)) => cmp_helper(&a, &b, case_sensitive, reverse),
-                        _ => Ordering::Equal,
-                    }
+                    let a = a.get_path_or_default(key, &Value::UNDEFINED);
+                    let b = b.get_path_or_default(key, &Value::UNDEFINED);
+                    cmp_helper(&a, &b, case_sensitive, reverse)
                 })?;
             }
         } else {
